@@ -39,13 +39,13 @@ pub const PROPS: &[PropSpec] = &[
         rule: "non-trivial: a channeled subscriber received >=1 notification and its queue was full at least once or it was unsubscribed/stopped with items queued" },
     PropSpec { id: "C11", families: &[("eff", 7), ("stop", 3)], borrowed: &[("C13", "eff")], quick_runs: 240_000,
         rule: "non-trivial: >=1 effect ran while the reducer thread was inside a later pipeline, or stop() was invoked with effects outstanding" },
-    PropSpec { id: "C12", families: &[("mw", 10)], borrowed: &[("C01", "mw"), ("C03", "mw"), ("C07", "mw"), ("C11", "mw")], quick_runs: 240_000,
+    PropSpec { id: "C12", families: &[("mw", 8), ("eff", 2)], borrowed: &[("C01", "mw"), ("C03", "mw"), ("C07", "mw"), ("C11", "mw"), ("C11", "eff")], quick_runs: 240_000,
         rule: "non-trivial: some hook returned a verdict other than Continue" },
     PropSpec { id: "C13", families: &[("api", 5), ("eff", 2), ("sub", 1), ("stop", 1), ("two", 1)], borrowed: &[], quick_runs: 240_000,
         rule: "non-trivial: >=2 client threads had public API calls overlapping in time, one of them a shutdown, subscription or iterator operation" },
     PropSpec { id: "C14", families: &[("sub", 10)], borrowed: &[], quick_runs: 240_000,
         rule: "non-trivial: an iterator yielded >=1 item and its consumer overlapped a producer or stop()" },
-    PropSpec { id: "C15", families: &[("stop", 10)], borrowed: &[("C11", "stop"), ("C09", "stop"), ("C10", "stop")], quick_runs: 240_000,
+    PropSpec { id: "C15", families: &[("stop", 8), ("sub", 2)], borrowed: &[("C11", "stop"), ("C09", "stop"), ("C10", "stop")], quick_runs: 240_000,
         rule: "non-trivial: a DroppableStore was dropped while a dispatch overlapped the drop or with backlog >= 1" },
     PropSpec { id: "C16", families: &[("sub", 5), ("core", 3), ("two", 2)], borrowed: &[], quick_runs: 240_000,
         rule: "non-trivial: a selector subscriber saw >=2 notifications of which at least one repeated the previous selected value" },
@@ -63,6 +63,16 @@ pub fn spec(id: &str) -> Option<&'static PropSpec> {
 
 pub fn counts_for(p: &PropSpec, v: &Violation, family: &str) -> bool {
     v.prop == p.id || p.borrowed.iter().any(|(bp, fam)| *bp == v.prop && *fam == family)
+}
+
+/// Premise of a borrowed clause that depends on the program: C12 speaks of effects that a
+/// middleware left in the list, so C11's clauses in family eff (effects racing close()/stop(),
+/// every effect kind) count for C12 only in the programs whose store has a middleware.
+pub fn borrow_premise(p: &PropSpec, v: &Violation, family: &str, d: &Digest) -> bool {
+    if p.id == "C12" && v.prop == "C11" && family == "eff" {
+        return d.stores.iter().all(|sd| !sd.model.middlewares.is_empty());
+    }
+    true
 }
 
 fn calls_overlap(a: &Call, b: &Call) -> bool {
